@@ -2162,7 +2162,7 @@ SOURCE_TIES = [{"name": "unpickler", "translator": "unpickler", "gen_module": "P
                 "needs": ["Pickle.SrcPrimsFacts"],
                 "sources": ["deepdiff/serialization.py", "deepdiff/delta.py", "deepdiff/helper.py"],
                 "fragment": "serialization.py: the literal SAFE_TO_IMPORT, _RestrictedUnpickler.__init__ / find_class / persistent_load, "
-                            "pickle_load (+ structural checks: the class subclasses pickle.Unpickler and overrides nothing else, no other "
+                            "pickle_load, _RestrictedPickler.persistent_id (+ structural checks: the class subclasses pickle.Unpickler and overrides nothing else, no other "
                             "use of the pickle module in the package, helper.strings)"}]
 
 
@@ -2311,10 +2311,14 @@ def _tie_eval(ctx, cfgs, pairs, loads, pids):
         parts.append("SL (idx_diff (fun q => rz (result_of (g_pickle_load (tie_env MODS%d FOUND%d) (fst (fst q)) (snd (fst q)) ARG%d))) "
                      "(fun q => rz (Some (h_load W%d (fst (snd q)) (snd (snd q))))) LOADS)" % (ci, ci, ci, ci))
     parts.append("SL (idx_diff (fun p => sx_obj (g_persistent_load p)) (fun p => sx_obj (persistent_load p)) PIDS)")
+    popt = "(fun o : option pystr => match o with Some s => SL [sx_str s] | None => SL [] end)"
+    pid_dump = ("SL (idx_diff (fun p => %s (g_persistent_id p)) (fun p => %s (match p with ONoneType => Some NONE_TYPE_PID | _ => None end)) PIDS)"
+                % (popt, popt))
     # the keyword absent: __init__ without safe_to_import (the default of kwargs.pop)
     parts.append("SL (idx_diff (fun q => SZ (fcz (fc_of (g_find_class (proc_of MODS0 FOUND0) (g_init_allow None) (fst q) (snd q))))) "
                  "(fun q => SZ (fcz (Some (find_class W0 (fst q) (snd q))))) PAIRS)")
     L.append("Local Open Scope string_scope.")
+    parts.append(pid_dump)
     L.append('Eval vm_compute in ("BEGIN" ++ nl ++ show_sx (SL [%s]) ++ "END").' % "; ".join(parts))
     fn = os.path.join(ctx.scratch, "tie_c15_diff.v")
     with open(fn, "w") as f:
@@ -2336,6 +2340,8 @@ def _tie_eval(ctx, cfgs, pairs, loads, pids):
     res["totals"]["persistent_load"] = nums[2 * len(cfgs)][0]
     res["fc_absent"] = nums[2 * len(cfgs) + 1][1:]
     res["totals"]["find_class"] += nums[2 * len(cfgs) + 1][0]
+    res["pid_dump"] = nums[2 * len(cfgs) + 2][1:]
+    res["totals"]["persistent_id"] = nums[2 * len(cfgs) + 2][0]
     return res, None
 
 
@@ -2453,6 +2459,10 @@ def on_source_tie_break(ctx, name, rec):
                         cases.append(c)
             else:
                 first.append({"definition": "persistent_load", "pid": "non-str object #%d" % (i - len(pids))})
+        if diff.get("pid_dump"):
+            # the dumping side: judged by the own-dumps stream of run() (448 dumps incl. NoneType at type-change positions)
+            first.append({"definition": "persistent_id", "objects": ["index %d of the id / object pool" % i for i in diff["pid_dump"][:6]],
+                          "judged_by": "the own-dumps stream of this run"})
         out["first_differences"] = first[:12]
         out["judged_on_the_implementation"] = len(cases)
         b0 = len(ctx.breaks)
